@@ -53,6 +53,15 @@ func Run(c *core.Ctx) int {
 	// heavy programs first so that the parallel schedule is tight
 	sort.SliceStable(tables, func(i, j int) bool { return weight(tables[i].name) > weight(tables[j].name) })
 
+	// the history oracle must reject hand-made illegal histories, otherwise it is vacuous
+	rej, tot := modelSelfCheck()
+	c.Count("model_selfcheck_illegal_histories_rejected", rej)
+	if rej != tot {
+		c.Inconclusive("model-selfcheck-failed")
+		fmt.Printf("MACHINERY-FAILURE property=C13 sequential models accept %d of %d illegal histories\n", tot-rej, tot)
+		return 2
+	}
+
 	st := newTstats()
 	ns := newNosyncStats()
 	total := len(tables) + len(nos)
